@@ -353,6 +353,16 @@ func (e constantStructFieldCastError) Error() string {
 	return fmt.Sprintf("failed to cast field %q: %v", e.FieldName, e.Reason)
 }
 
+// defaultValueCycleError is raised when the default value of a field needs
+// that same default value.
+type defaultValueCycleError struct {
+	FieldName string
+}
+
+func (e defaultValueCycleError) Error() string {
+	return fmt.Sprintf("the default value of %q depends on itself", e.FieldName)
+}
+
 type annotationConflictError struct {
 	Reason error
 }
